@@ -501,118 +501,150 @@ class Context:
         math_obj.set("SQRT2", math.sqrt(2))
         math_obj.set("SQRT1_2", math.sqrt(0.5))
 
-        # Basic functions
-        def abs_fn(*args):
-            x = to_number(args[0]) if args else float("nan")
-            return abs(x)
+        nan = float("nan")
+        inf = float("inf")
 
-        def floor_fn(*args):
-            x = to_number(args[0]) if args else float("nan")
-            return math.floor(x)
+        def number_arg(args, i=0):
+            return to_number(args[i]) if len(args) > i else nan
 
-        def ceil_fn(*args):
-            x = to_number(args[0]) if args else float("nan")
-            return math.ceil(x)
+        def tidy(result):
+            """Integral results in the exactly representable range are kept as ints."""
+            if isinstance(result, float) and result.is_integer() and abs(result) <= 2**53:
+                if result == 0 and math.copysign(1, result) < 0:
+                    return result  # keep -0
+                return int(result)
+            return result
 
-        def round_fn(*args):
-            x = to_number(args[0]) if args else float("nan")
-            # JavaScript-style round (round half towards positive infinity)
-            return math.floor(x + 0.5)
+        def unary(fn):
+            """Wrap a float -> float function: NaN in, NaN out; host range and domain
+            errors become the IEEE results (infinity / NaN) instead of escaping."""
 
-        def trunc_fn(*args):
-            x = to_number(args[0]) if args else float("nan")
-            return math.trunc(x)
+            def wrapped(*args):
+                x = number_arg(args)
+                if math.isnan(x):
+                    return nan
+                try:
+                    return tidy(fn(float(x)))
+                except OverflowError:
+                    return inf
+                except ValueError:
+                    return nan
 
-        def min_fn(*args):
-            if not args:
-                return float("inf")
-            nums = [to_number(a) for a in args]
-            return min(nums)
+            return wrapped
 
-        def max_fn(*args):
-            if not args:
-                return float("-inf")
-            nums = [to_number(a) for a in args]
-            return max(nums)
+        def integral(fn):
+            """floor/ceil/trunc: infinities and integral values map to themselves,
+            a result of zero keeps the sign of the argument."""
+
+            def rounding(x):
+                if math.isinf(x) or x == math.floor(x):
+                    return x
+                result = float(fn(x))
+                return math.copysign(0.0, x) if result == 0 else result
+
+            return unary(rounding)
+
+        def round_half_up(x):
+            # round half towards positive infinity; [-0.5, 0) gives -0
+            if math.isinf(x) or x == math.floor(x):
+                return x
+            lower = math.floor(x)
+            result = float(lower + 1 if x - lower >= 0.5 else lower)
+            return -0.0 if result == 0 and x < 0 else result
+
+        def cbrt(x):
+            if x == 0 or math.isinf(x):
+                return x
+            return math.copysign(abs(x) ** (1 / 3), x)
+
+        def log_of(fn):
+            def log(x):
+                if x == 0:
+                    return -inf
+                if x < 0:
+                    return nan
+                return inf if math.isinf(x) else fn(x)
+
+            return log
+
+        def signed_overflow(fn):
+            """sinh / expm1: an overflow has the sign of the argument."""
+
+            def wrapped(x):
+                try:
+                    return fn(x)
+                except OverflowError:
+                    return inf if x > 0 else -inf
+
+            return wrapped
+
+        abs_fn = unary(abs)
+        floor_fn = integral(math.floor)
+        ceil_fn = integral(math.ceil)
+        trunc_fn = integral(math.trunc)
+        round_fn = unary(round_half_up)
+        sqrt_fn = unary(lambda x: nan if x < 0 else math.sqrt(x))
+        sin_fn = unary(lambda x: nan if math.isinf(x) else math.sin(x))
+        cos_fn = unary(lambda x: nan if math.isinf(x) else math.cos(x))
+        tan_fn = unary(lambda x: nan if math.isinf(x) else math.tan(x))
+        asin_fn = unary(lambda x: nan if x < -1 or x > 1 else math.asin(x))
+        acos_fn = unary(lambda x: nan if x < -1 or x > 1 else math.acos(x))
+        atan_fn = unary(math.atan)
+        log_fn = unary(log_of(math.log))
+        log2_fn = unary(log_of(math.log2))
+        log10_fn = unary(log_of(math.log10))
+        log1p_fn = unary(
+            lambda x: -inf if x == -1 else (nan if x < -1 else (x if math.isinf(x) else math.log1p(x)))
+        )
+        exp_fn = unary(lambda x: 0.0 if x == -inf else math.exp(x))
+        expm1_fn = unary(signed_overflow(lambda x: -1.0 if x == -inf else math.expm1(x)))
+        cbrt_fn = unary(cbrt)
+        sign_fn = unary(lambda x: x if x == 0 else math.copysign(1.0, x))
+
+        def extreme(pick_first, empty):
+            """max / min: NaN if any argument is NaN; +0 is larger than -0."""
+
+            def fn(*args):
+                result = empty
+                for value in [to_number(a) for a in args]:
+                    if math.isnan(value) or (isinstance(result, float) and math.isnan(result)):
+                        result = nan
+                    elif value == result == 0:
+                        if pick_first(math.copysign(1, value), math.copysign(1, result)):
+                            result = value
+                    elif pick_first(value, result):
+                        result = value
+                return result
+
+            return fn
+
+        max_fn = extreme(lambda a, b: a > b, -inf)
+        min_fn = extreme(lambda a, b: a < b, inf)
 
         def pow_fn(*args):
-            x = to_number(args[0]) if args else float("nan")
-            y = to_number(args[1]) if len(args) > 1 else float("nan")
-            return js_pow(x, y)
-
-        def sqrt_fn(*args):
-            x = to_number(args[0]) if args else float("nan")
-            if x < 0:
-                return float("nan")
-            return math.sqrt(x)
-
-        def sin_fn(*args):
-            x = to_number(args[0]) if args else float("nan")
-            return math.sin(x)
-
-        def cos_fn(*args):
-            x = to_number(args[0]) if args else float("nan")
-            return math.cos(x)
-
-        def tan_fn(*args):
-            x = to_number(args[0]) if args else float("nan")
-            return math.tan(x)
-
-        def asin_fn(*args):
-            x = to_number(args[0]) if args else float("nan")
-            if x < -1 or x > 1:
-                return float("nan")
-            return math.asin(x)
-
-        def acos_fn(*args):
-            x = to_number(args[0]) if args else float("nan")
-            if x < -1 or x > 1:
-                return float("nan")
-            return math.acos(x)
-
-        def atan_fn(*args):
-            x = to_number(args[0]) if args else float("nan")
-            return math.atan(x)
+            return js_pow(number_arg(args, 0), number_arg(args, 1))
 
         def atan2_fn(*args):
-            y = to_number(args[0]) if args else float("nan")
-            x = to_number(args[1]) if len(args) > 1 else float("nan")
+            y = number_arg(args, 0)
+            x = number_arg(args, 1)
+            if math.isnan(x) or math.isnan(y):
+                return nan
             return math.atan2(y, x)
-
-        def log_fn(*args):
-            x = to_number(args[0]) if args else float("nan")
-            if x <= 0:
-                return float("-inf") if x == 0 else float("nan")
-            return math.log(x)
-
-        def exp_fn(*args):
-            x = to_number(args[0]) if args else float("nan")
-            return math.exp(x)
 
         def random_fn(*args):
             return random.random()
 
-        def sign_fn(*args):
-            x = to_number(args[0]) if args else float("nan")
-            if math.isnan(x):
-                return float("nan")
-            if x > 0:
-                return 1
-            if x < 0:
-                return -1
-            return 0
+        def to_int32(value):
+            n = to_number(value)
+            if math.isnan(n) or math.isinf(n):
+                return 0
+            n = int(n) & 0xFFFFFFFF
+            return n - 0x100000000 if n >= 0x80000000 else n
 
         def imul_fn(*args):
             # 32-bit integer multiplication
-            a = to_integer(args[0]) if args else 0
-            b = to_integer(args[1]) if len(args) > 1 else 0
-            # Convert to 32-bit signed integers
-            a = a & 0xFFFFFFFF
-            b = b & 0xFFFFFFFF
-            if a >= 0x80000000:
-                a -= 0x100000000
-            if b >= 0x80000000:
-                b -= 0x100000000
+            a = to_int32(args[0]) if args else 0
+            b = to_int32(args[1]) if len(args) > 1 else 0
             result = (a * b) & 0xFFFFFFFF
             if result >= 0x80000000:
                 result -= 0x100000000
@@ -622,50 +654,26 @@ class Context:
             # Convert to 32-bit float
             import struct
 
-            x = to_number(args[0]) if args else float("nan")
-            # Pack as 32-bit float and unpack as 64-bit
-            packed = struct.pack("f", x)
-            return struct.unpack("f", packed)[0]
+            x = number_arg(args)
+            if math.isnan(x) or math.isinf(x):
+                return x
+            try:
+                return struct.unpack("f", struct.pack("f", x))[0]
+            except OverflowError:
+                return math.copysign(inf, x)
 
         def clz32_fn(*args):
             # Count leading zeros in 32-bit integer
-            x = to_integer(args[0]) if args else 0
-            x = x & 0xFFFFFFFF
-            if x == 0:
-                return 32
-            count = 0
-            while (x & 0x80000000) == 0:
-                count += 1
-                x <<= 1
-            return count
+            x = (to_int32(args[0]) if args else 0) & 0xFFFFFFFF
+            return 32 - x.bit_length()
 
         def hypot_fn(*args):
-            if not args:
-                return 0
             nums = [to_number(a) for a in args]
-            return math.hypot(*nums)
-
-        def cbrt_fn(*args):
-            x = to_number(args[0]) if args else float("nan")
-            if x < 0:
-                return -((-x) ** (1 / 3))
-            return x ** (1 / 3)
-
-        def log2_fn(*args):
-            x = to_number(args[0]) if args else float("nan")
-            return math.log2(x) if x > 0 else float("nan")
-
-        def log10_fn(*args):
-            x = to_number(args[0]) if args else float("nan")
-            return math.log10(x) if x > 0 else float("nan")
-
-        def expm1_fn(*args):
-            x = to_number(args[0]) if args else float("nan")
-            return math.expm1(x)
-
-        def log1p_fn(*args):
-            x = to_number(args[0]) if args else float("nan")
-            return math.log1p(x) if x > -1 else float("nan")
+            if any(math.isinf(v) for v in nums):
+                return inf
+            if any(math.isnan(v) for v in nums):
+                return nan
+            return tidy(math.hypot(*nums)) if nums else 0
 
         # Set all methods
         math_obj.set("abs", abs_fn)
